@@ -2,6 +2,7 @@ package rules
 
 import (
 	"fmt"
+	"go/ast"
 	"go/token"
 	"go/types"
 	"sort"
@@ -318,6 +319,63 @@ func c01Pool(r *core.Run) {
 					}
 				}
 				r.Floor("C01.POOL", "fields of "+tn+" accounted for", nOK, 10)
+				// an exported rendering entry point of the pooled type starts from a clean scratch state of its own:
+				// its result must not depend on what the same instance rendered before (the acquire-time reset does not
+				// help a caller that renders two functions with one instance)
+				nEntry := 0
+				for _, m := range p.Funcs {
+					if m.Signature.Recv() == nil || core.Deref(m.Signature.Recv().Type()) != types.Type(pooled) || m.Parent() != nil || !ast.IsExported(m.Name()) || m.Blocks == nil {
+						continue
+					}
+					rt := resultTypes(m)
+					if len(m.Params) != 2 || !isSSAFunctionPtr(m.Params[1].Type()) || len(rt) != 1 || rt[0].String() != "string" {
+						continue
+					}
+					nEntry++
+					recv := m.Params[0]
+					var resets []ssa.Instruction
+					core.InstrsOf(m, func(in ssa.Instruction) {
+						if c := core.CallOf(in); c != nil {
+							if g := core.StaticCallee(c); g != nil && g != acq && resetFns[g] && len(c.Args) > 0 && c.Args[0] == ssa.Value(recv) {
+								resets = append(resets, in)
+							}
+						}
+					})
+					afterReset := func(in ssa.Instruction) bool {
+						for _, rc := range resets {
+							if rc.Block() == in.Block() && core.Precedes(rc, in) {
+								return true
+							}
+							if rc.Block() != in.Block() && rc.Block().Dominates(in.Block()) {
+								return true
+							}
+						}
+						return false
+					}
+					bad := ""
+					var badPos token.Pos
+					core.InstrsOf(m, func(in ssa.Instruction) {
+						if bad != "" {
+							return
+						}
+						if c := core.CallOf(in); c != nil {
+							g := core.StaticCallee(c)
+							if g != nil && len(c.Args) > 0 && c.Args[0] == ssa.Value(recv) && !resetFns[g] && !afterReset(in) {
+								bad, badPos = "calls "+core.FuncName(g), in.Pos()
+							}
+						}
+						if sto, ok := in.(*ssa.Store); ok {
+							if fa, isFA := sto.Addr.(*ssa.FieldAddr); isFA && fa.X == ssa.Value(recv) && !afterReset(in) {
+								bad, badPos = "writes "+core.FieldName(fa.X.Type(), fa.Field), in.Pos()
+							}
+						}
+					})
+					if len(resets) == 0 {
+						bad, badPos = "never resets the scratch state", m.Pos()
+					}
+					r.Check(bad == "", "C01.POOL", core.FuncName(m)+"#entry-resets-scratch", badPos, "the rendering entry point resets the per-function state before it touches the instance", "the rendering entry point "+bad+" before (or without) resetting the per-function state: a second function rendered with the same instance starts from the first one's output buffer, register counter and maps, so equal inputs give different IR")
+				}
+				r.Floor("C01.POOL", "exported rendering entry points of "+tn, nEntry, 1)
 			}
 			// an instance is handed back at most once: a second Put makes two later callers share it
 			var releases []*ssa.Function
@@ -336,6 +394,56 @@ func c01Pool(r *core.Run) {
 					}
 				}
 				return core.CalleeName(c) == "(*sync.Pool).Put" && len(c.Args) > 0 && c.Args[0] == ssa.Value(g)
+			}
+			// ... and once handed back it is not touched again: the pool may give it to another goroutine at once
+			for _, rf := range releases {
+				core.InstrsOf(rf, func(in ssa.Instruction) {
+					c := core.CallOf(in)
+					if c == nil || core.CalleeName(c) != "(*sync.Pool).Put" || c.Args[0] != ssa.Value(g) {
+						return
+					}
+					obj := core.Unwrap(c.Args[1])
+					uses := func(x ssa.Instruction) bool {
+						if x == in {
+							return false
+						}
+						if _, isDbg := x.(*ssa.DebugRef); isDbg {
+							return false
+						}
+						for _, op := range x.Operands(nil) {
+							if op != nil && *op != nil && core.Unwrap(*op) == obj {
+								return true
+							}
+						}
+						return false
+					}
+					var late ssa.Instruction
+					after := false
+					for _, x := range in.Block().Instrs {
+						if x == in {
+							after = true
+							continue
+						}
+						if after && uses(x) && late == nil {
+							late = x
+						}
+					}
+					for b := range core.ReachAvoiding(in.Block(), nil) {
+						if b == in.Block() {
+							continue
+						}
+						for _, x := range b.Instrs {
+							if uses(x) && late == nil {
+								late = x
+							}
+						}
+					}
+					pos := in.Pos()
+					if late != nil {
+						pos = late.Pos()
+					}
+					r.Check(late == nil, "C01.POOL", core.FuncName(rf)+"#no-use-after-put", pos, "the instance is not touched after it was handed back to the pool", "the instance is used after it was handed back to the pool: another goroutine can already have taken it, so its reset races with the next fingerprint (mixed or corrupted canonical IR under concurrent use)")
+				})
 			}
 			nRel := 0
 			for _, fn := range p.Funcs {
